@@ -59,6 +59,7 @@ _STD_LOOPS = {
             "len": "forall(%s, lambda key: len(lookup(%s, key)) >= 1 and len(lookup(%s, key)) <= _i)" % (_KV, _KV, _KV),
             "count": "forall(%s, lambda key: (len(lookup(%s, key)) == _i) == forall(range_(0, _i), lambda j: has(%s, key)))" % (_KV, _KV, _REQ.format(j="j")),
             "cover": "forall(range_(0, _i), lambda j: forall(%s, lambda key: has(%s, key) and has(lookup(%s, key), lookup(%s, key))))" % (_REQ.format(j="j"), _KV, _KV, _REQ.format(j="j")),
+            "absent": "forall_v(lambda key: implies(not has(%s, key), forall(range_(0, _i), lambda j: not has(%s, key))))" % (_KV, _REQ.format(j="j")),
             "from": "forall(%s, lambda key: forall(lookup(%s, key), lambda x: exists(range_(0, _i), lambda j: has(%s, key) and x is lookup(%s, key))))" % (_KV, _KV, _REQ.format(j="j"), _REQ.format(j="j")),
             "eo-cover": "forall(range_(0, _i), lambda j: forall(range_(0, len(%s)), lambda q: has(%s, nth(items_(%s), q))))" % (_OPT.format(j="j"), _EO, _OPT.format(j="j")),
             "eo-from": "forall(%s, lambda p: exists(range_(0, _i), lambda j: has(items_(%s), p)))" % (_EO, _OPT.format(j="j")),
@@ -105,7 +106,7 @@ contract("monkeytype.typing:shrink_typed_dict_types", props=["C04", "C05", "C06"
              "flat-has-kv": "implies(L_value_type is L_value_type, forall(L_key_value_types_dict, lambda key: forall(lookup(L_key_value_types_dict, key), lambda x: has(%s, x))))" % "flat_(concat_(values_(L_required_fields), values_(L_optional_fields)))",
              "flat-has-eo": "implies(L_value_type is L_value_type, forall(L_existing_optional_fields, lambda p: has(%s, nth(p, 1))))" % "flat_(concat_(values_(L_required_fields), values_(L_optional_fields)))",
              "dict-req": "forall(range_(0, len(typed_dicts)), lambda j: forall(%s, lambda key: forall_val(lambda v: implies(mem(v, lookup(%s, key)), mem(v, L_value_type)))))" % (_REQ.format(j="j"), _REQ.format(j="j")),
-             "dict-opt-idx": "forall(range_(0, len(typed_dicts)), lambda j: forall(range_(0, len(%s)), lambda q: forall_val(lambda v: implies(mem(v, nth(nth(items_(%s), q), 1)), mem(v, L_value_type)))))" % (_OPT.format(j="j"), _OPT.format(j="j")),
+             "dict-opt-idx": "forall(range_(0, len(typed_dicts)), lambda j: forall(range_(0, len(%s)), lambda q: forall_val(lambda v: implies(mem(v, nth(nth(items_(%s), q), 1)), mem(v, L_value_type))), lambda q: nth(%s, q)))" % (_OPT.format(j="j"), _OPT.format(j="j"), _OPT.format(j="j")),
              "dict-opt": "forall(range_(0, len(typed_dicts)), lambda j: forall(%s, lambda key: forall_val(lambda v: implies(mem(v, lookup(%s, key)), mem(v, L_value_type)))))" % (_OPT.format(j="j"), _OPT.format(j="j")),
              # ---- merged-TypedDict path: relate the shrunk field dicts R', O' to the collected lists, then to each input TypedDict
              "td-req-from": "implies(kind(result) is K_TD, forall(L_required_fields, lambda key: has(L_key_value_types_dict, key) and len(lookup(L_key_value_types_dict, key)) == len(typed_dicts)"
@@ -122,7 +123,7 @@ contract("monkeytype.typing:shrink_typed_dict_types", props=["C04", "C05", "C06"
                            " (has(L_required_fields, key) and forall_val(lambda v: implies(mem(v, lookup(%s, key)), mem(v, lookup(L_required_fields, key)))))"
                            " or (not has(L_required_fields, key) and has(L_optional_fields, key) and forall_val(lambda v: implies(mem(v, lookup(%s, key)), mem(v, lookup(L_optional_fields, key))))))))" % (_REQ.format(j="j"), _REQ.format(j="j"), _REQ.format(j="j")),
              "td-sup-opt-idx": "implies(kind(result) is K_TD, forall(range_(0, len(typed_dicts)), lambda j: forall(range_(0, len(%s)), lambda q: has(L_optional_fields, nth(nth(items_(%s), q), 0))"
-                               " and forall_val(lambda v: implies(mem(v, nth(nth(items_(%s), q), 1)), mem(v, lookup(L_optional_fields, nth(nth(items_(%s), q), 0))))))))" % ((_OPT.format(j="j"),) * 4),
+                               " and forall_val(lambda v: implies(mem(v, nth(nth(items_(%s), q), 1)), mem(v, lookup(L_optional_fields, nth(nth(items_(%s), q), 0))))), lambda q: nth(%s, q))))" % ((_OPT.format(j="j"),) * 5),
              "td-sup-opt": "implies(kind(result) is K_TD, forall(range_(0, len(typed_dicts)), lambda j: forall(%s, lambda key: has(L_optional_fields, key) and not has(L_required_fields, key)"
                            " and forall_val(lambda v: implies(mem(v, lookup(%s, key)), mem(v, lookup(L_optional_fields, key)))))))" % (_OPT.format(j="j"), _OPT.format(j="j")),
          },
